@@ -452,9 +452,11 @@ Definition range_status (dt : dtype) (rows : list (list num)) (rng : list num) :
 Definition all_len {A} (n : nat) (rows : list (list A)) : bool :=
   forallb (fun r => (length r =? n)%nat) rows.
 
-(** "the returned grid is the file's grid": shape, values row by row in file
-    order with blanks as NaN, coordinates, attributes, dims, dtype, and the
-    header's range agrees with the body *)
+(** "the returned grid is the file's grid": the header's shape, the file's
+    values in file order (row-major; for a file written one grid row per line
+    this is: row by row) with blanks as NaN, coordinates, attributes, dims,
+    dtype, and the header's range agrees with the body.  A wrapped layout may
+    be loaded this way or refused; the code refuses it (see the model). *)
 Definition grid_is_file (fileattr : option string) (dt : dtype) (f : list string) (g : ogrid) : tri :=
   match map_opt pint (split_ws (line f 1)),
         map_opt pflt (split_ws (line f 2)),
@@ -462,8 +464,8 @@ Definition grid_is_file (fileattr : option string) (dt : dtype) (f : list string
         map_opt pflt (split_ws (line f 4)),
         map_opt (map_opt pval) (body_rows f) with
   | Some [nr; nc], Some [Fin s; Fin n], Some [Fin w; Fin e], Some rng, Some rows =>
-      if (Z.of_nat (length rows) =? nr)%Z && all_len (Z.to_nat nc) rows && (0 <=? nc)%Z
-         && vals_eqb (og_vals g) (map (map (mask dt)) rows)
+      if (Z.of_nat (length (og_vals g)) =? nr)%Z && all_len (Z.to_nat nc) (og_vals g) && (0 <=? nc)%Z
+         && list_eqb num_eqb (concat (og_vals g)) (map (mask dt) (concat rows))
          && coords_close (linspace (D2Q s) (D2Q n) (Z.to_nat nr)) (og_north g)
          && coords_close (linspace (D2Q w) (D2Q e) (Z.to_nat nc)) (og_east g)
          && String.eqb (og_id g) (strip (line f 0))
